@@ -93,6 +93,24 @@ def lifetime_modules():
     out.append(('Add', '#[::derive_ex::derive_ex(AddAssign)]\n' + base, bl))
     out.append(('Add', '#[derive_ex::derive_ex(AddAssign)]\n#[allow(unused_variables)]\n#[doc = "the user\'s impl"]\n#[cfg(all())]\n' + base, bl))
     out.append(('AddAssign', '#[allow(unused_variables)]\n#[::derive_ex::derive_ex(Add)]\n' + base, bl))
+    # 9. operand types that are the USER's sized types but are NAMED like unsized std types (`Path`, `OsStr`, `CStr`): what a
+    #    type is called says nothing about it - all forms exist
+    for nm in ('Path', 'OsStr', 'CStr', 'Slice'):
+        decl = ('pub struct %s(pub String);\nimpl Clone for %s { fn clone(&self) -> %s { CLONES.with(|c| c.set(c.get() + 1)); %s(format!("c[{}]", self.0)) } }\n' % (nm, nm, nm, nm))
+        item = ("impl ::core::ops::Sub<&%s> for X { type Output = X; fn sub(self, rhs: &%s) -> X { tick(); "
+                "X(format!(\"({}-{})\", self.0, rhs.0)) } }\n" % (nm, nm)) + decl
+        Pv = '%s("b".to_string())' % nm
+        bl9 = [block('vv', 'let a = %s; let b = %s;' % (X('a'), Pv), 'a - b', ('X("(a-b)")', '1', '0')),
+              block('rv', 'let a = %s; let b = %s;' % (X('a'), Pv), '&a - b', ('X("(c[a]-b)")', '1', '1')),
+              block('rr', 'let a = %s; let b = %s;' % (X('a'), Pv), '&a - &b', ('X("(c[a]-b)")', '1', '1'))]
+        out.append(('Sub', item, bl9))
+        aitem = ("impl ::core::ops::Mul<&%s> for X { type Output = X; fn mul(self, rhs: &%s) -> X { tick(); "
+                 "X(format!(\"({}-{})\", self.0, rhs.0)) } }\n" % (nm, nm)) + decl
+        abl = [('    { let mut a = %s; let b = %s; counts(); a *= b; let (n, k) = counts(); println!("@ID@\\tasg_v\\t{:?}\\t{}\\t{}", a, n, k); }'
+                % (X('a'), Pv), ('asg_v', 'X("(c[a]-b)")', '1', '1')),
+               block('vv', 'let a = %s; let b = %s;' % (X('a'), Pv), 'a * b', ('X("(a-b)")', '1', '0'))]
+        if nm in ('Path', 'Slice'):
+            out.append(('Mul, MulAssign', aitem, abl))
     # 8. ... and through a renamed import of the macro
     out.append(('Add', '#[dx(AddAssign)]\n' + base + '\nuse ::derive_ex::derive_ex as dx;', bl))
     return out
